@@ -111,6 +111,10 @@ func (w *_node) Type() schema.Type {
 }
 
 func (w *_node) Representation() datamodel.Node {
+	if w.val.Kind() == reflect.Ptr && !w.val.IsNil() {
+		// a plain slot bound to a Go pointer: the representation reads what it points to, as the type level does
+		return (*_nodeRepr)(&_node{w.cfg, w.schemaType, w.val.Elem()})
+	}
 	return (*_nodeRepr)(w)
 }
 
